@@ -198,18 +198,20 @@ Inductive gterm :=
 | GAtom (a : Z) | GNil | GPair (a d : gterm) | GVec (l : list gterm)
 | GDef (n : Z) (b : gterm) | GRef (n : Z).
 
+(** [(a b . d)]: after the car, a pair in the cdr continues the list (its own text without the
+    opening parenthesis), () closes it, anything else - atom, vector, labelled or referenced
+    tail - is written after " . " (check-shared with the " . " prefix in srfi 38) *)
 Fixpoint wr (t : gterm) : list ltok :=
   match t with
   | GAtom a => [KAtom a]
   | GNil => [KOpen; KClose]
   | GPair a d =>
       KOpen :: wr a ++
-      (fix tail (d : gterm) : list ltok :=
-         match d with
-         | GNil => [KClose]
-         | GPair a' d' => wr a' ++ tail d'
-         | _ => KDot :: wr d ++ [KClose]
-         end) d
+      match d with
+      | GNil => [KClose]
+      | GPair _ _ => List.tl (wr d)
+      | _ => KDot :: wr d ++ [KClose]
+      end
   | GVec l => KVec :: flat_map wr l ++ [KClose]
   | GDef n b => KDef n :: wr b
   | GRef n => [KRef n]
